@@ -31,7 +31,9 @@ class Schedule:
             r = random.Random('%s/%d/%s' % (self.seed, call, what))
             p = list(range(n))
             r.shuffle(p)
-        elif self.mode == 'symbolic':
+        elif self.mode == 'symbolic-completion' and what != 'completion':
+            p = list(range(n))
+        elif self.mode in ('symbolic', 'symbolic-completion'):
             if n > self.max_sym_tasks:
                 import random
                 r = random.Random('%s/%d/%s' % (self.seed, call, what))
